@@ -377,10 +377,16 @@ def roundtrip_chain(r, it, reg, case, tmp, idx, hmpo, obs):
     if reg.kind != "O" and max(x.bond_dims) > 1 and it.has_qn:
         r.nontrivial = True
     fname = os.path.join(tmp, f"obj{idx}.npz")
-    ok, _ = _guard(r, f"rt.{tag}.dump", x.dump, fname)
+    # the file name as str, as pathlib.Path, or without the extension (numpy appends ".npz")
+    nk = (case.get("rng", 0) + idx) % 3
+    import pathlib
+    arg = fname if nk == 0 else (pathlib.Path(fname) if nk == 1 else fname[:-4])
+    r.classes.append(f"rt.name_kind.{('str', 'Path', 'no_extension')[nk]}")
+    ok, _ = _guard(r, f"rt.{tag}.dump", x.dump, arg)
     if not ok:
         return
-    if not r.check(f"rt.{tag}.dump.file", os.path.isfile(fname), f"{what}: dump() returned but {os.path.basename(fname)} does not exist"):
+    if not r.check(f"rt.{tag}.dump.file", os.path.isfile(fname), f"{what}: dump({arg!r}) returned but {os.path.basename(fname)} does not exist "
+                                                                  f"(directory: {sorted(os.listdir(tmp))})"):
         return
     ok, y = _guard(r, f"rt.{tag}.load", cls.load, it.fresh_model(), fname)
     if not ok:
@@ -582,12 +588,20 @@ def run_tree(case, r):
         has_qn = any(np.any(gen.site_sigmaqn(spec, i) != 0) for i in range(n))
         r.nontrivial = has_qn and max(t.bond_dims) > 1
         fname = os.path.join(tmp, "ttns.npz")
-        ok, _ = _guard(r, "rt.ttns.dump", t.dump, fname)
+        extra = case["rng"] % 2 == 1
+        if extra:
+            # user attributes stored along with the state (other_attrs): they must come back, and so must the prefactor
+            t.harness_note = np.array([1.5, -2.0])
+            r.classes.append("rt.ttns.other_attrs")
+        ok, _ = _guard(r, "rt.ttns.dump", t.dump, fname, *( [["harness_note"]] if extra else []))
         if not ok or not r.check("rt.ttns.dump.file", os.path.isfile(fname), f"{what}: dump wrote nothing"):
             return
-        ok, y = _guard(r, "rt.ttns.load", TTNS.load, tree2, fname)
+        ok, y = _guard(r, "rt.ttns.load", TTNS.load, tree2, fname, *( [["harness_note"]] if extra else []))
         if not ok:
             return
+        if extra:
+            r.check("rt.ttns.other_attrs", hasattr(y, "harness_note") and np.array_equal(np.asarray(y.harness_note), t.harness_note),
+                    f"{what}: attribute stored with other_attrs not restored")
         same = r.check("rt.ttns.nodes", len(y.node_list) == len(t.node_list), f"{what}: node count")
         if same:
             for i, (a, b) in enumerate(zip(t.node_list, y.node_list)):
